@@ -29,7 +29,7 @@ from flipjump.utils.exceptions import (FlipJumpException, FlipJumpReadFjmExcepti
                                        FlipJumpRuntimeException, FlipJumpRuntimeMemoryException,
                                        FlipJumpWriteFjmException)
 
-RAW_FILTERS = [{"id": lzma.FILTER_LZMA2}]
+RAW_FILTERS = [{"id": lzma.FILTER_LZMA2, "dict_size": 1 << 26}]   # the largest dictionary a preset uses
 WB = {8: 1, 16: 2, 32: 4, 64: 8}
 EXC_CODE = {'struct.error': 2, 'IndexError': 3, 'KeyError': 4}
 
@@ -211,6 +211,51 @@ def run_asm(case, tmp):
     return outs
 
 
+def run_large(case, tmp):
+    """large-window family: one pseudo-random block as the data of two segments, version 3; real Writer + Reader only"""
+    import random
+    import time
+    t0 = time.time()
+    w, n_bytes, preset = case['w'], case['block_bytes'], case['preset']
+    wb = w // 8
+    n = (n_bytes // wb) & ~1
+    blob = random.Random(case['seed']).getrandbits(8 * n * wb).to_bytes(n * wb, 'little')
+    words = list(struct.unpack(f'<{n}' + {8: 'B', 16: 'H', 32: 'L', 64: 'Q'}[w], blob))
+    second = case['second_start']
+    path = Path(tmp) / 'L.fjm'
+    o = {'words': n, 'write': 0, 'cls': 9}
+    try:
+        wr = Writer(path, w, FJMVersion(3), lzma_preset=preset)
+        wr.add_segment(0, n, wr.add_data(words), n)
+        wr.add_segment(second, n, wr.add_data(words), n)
+        wr.write_to_file()
+    except BaseException as e:  # noqa
+        o['write'] = 1 if isinstance(e, FlipJumpWriteFjmException) else 2
+        o['exc'] = exc_name(e) + ': ' + str(e)[:120]
+        return o
+    o['file_len'] = path.stat().st_size
+    o['t_write'] = round(time.time() - t0, 2)
+    try:
+        r = Reader(path)
+    except FlipJumpReadFjmException as e:
+        o['cls'], o['msg'] = 1, str(e)[:100]
+        return o
+    except BaseException as e:  # noqa
+        o['cls'], o['msg'] = 2, exc_name(e) + ': ' + str(e)[:100]
+        return o
+    o['cls'] = 0
+    o['segs'] = [[s.segment_start, s.segment_length] for s in r.memory_segments]
+    o['zeros'] = [list(z) for z in r.zeros_boundaries]
+    mem = r.memory
+    ok = len(mem) == 2 * n
+    if ok:
+        get = mem.get
+        ok = all(get(i) == v and get(second + i) == v for i, v in enumerate(words))
+    o['words_equal'] = ok
+    o['t_total'] = round(time.time() - t0, 2)
+    return o
+
+
 def probe(tmp):
     """the constants of the tree under test, and whether the witnesses of the fixed defects F3-F6 are refused"""
     path = Path(tmp) / 'p.fjm'
@@ -281,6 +326,8 @@ def main():
             out = probe(tmp)
         elif req['mode'] == 'c06':
             out = [run_c06(c, tmp) for c in req['cases']]
+        elif req['mode'] == 'large':
+            out = [run_large(c, tmp) for c in req['cases']]
         elif req['mode'] == 'asm':
             out = [run_asm(c, tmp) for c in req['cases']]
         else:
